@@ -345,12 +345,16 @@ func newTreeExec(via string, c *treeCase) *treeExec {
 			x.f.ServeHTTP(httptest.NewRecorder(), sub)
 			x.last = serveOut{} // what the nested request observed is not this request's outcome
 		})
-		if len(c.H)%2 == 0 {
-			// a user-supplied not-found chain on every other case, the default http.NotFound otherwise
+		switch len(c.H) % 3 {
+		case 0:
+			// a user-supplied not-found chain on every third case, the default http.NotFound otherwise ...
 			x.f.NotFound(func(w http.ResponseWriter) {
 				w.WriteHeader(404)
 				_, _ = w.Write([]byte("not found"))
 			})
+		case 1:
+			// ... or a not-found chain WITHOUT handlers of its own: the application middleware still runs, once
+			x.f.NotFound()
 		}
 	}
 	return x
